@@ -117,6 +117,16 @@ def record_random(args):
                     refused = True
                 # judged as a 1-key scenario with quorum q: never a quorum
                 out.append({'n': 1, 'm': 0, 'keys': [1], 'sigs': [], 'tid': 0, 'got': 'true' if refused else 'builder-accepted-duplicate-key'})
+            # a list that repeats a key is accepted when the quorum fits the unique keys: a quorum of different
+            # holders must still unlock it (judged as the scenario over the de-duplicated key list)
+            for keys_i, q, signers in (([1, 1, 2], 2, [1, 2]), ([1, 1, 2], 2, [2, 1]), ([1, 2, 3, 2], 3, [1, 2, 3]),
+                                       ([1, 2, 3, 2], 3, [3, 1, 2]), ([1, 2, 2], 1, [1]), ([1, 2, 2], 1, [2]), ([2, 1, 1], 2, [1, 2])):
+                lock = T.make_multisig_lock([_pk(seed_of(x)) for x in keys_i], q)
+                wit = b''.join(bytes(T.make_single_sig_witness(seed_of(s), dict(FIELDS)).bytes) for s in signers)
+                ok = F.run_auth_scripts([wit, bytes(lock.bytes)], dict(FIELDS))
+                uniq = list(dict.fromkeys(keys_i))
+                out.append({'n': len(uniq), 'm': q, 'keys': list(reversed(uniq)), 'tid': 0,
+                            'sigs': [{'signer': s, 'cls': 'f0'} for s in reversed(signers)], 'got': 'true' if ok else 'false'})
     return out
 
 
